@@ -98,6 +98,8 @@ class ConstantExpressionEvaluator:
                 "~": lambda x: ~x,
             }
             value = op_map[expr.op](a)
+        elif expr.op == "!":
+            value = int(not self.eval_expr(expr.a))
         elif expr.op == "&":
             value = self.eval_take_address(expr.a)
         else:  # pragma: no cover
@@ -109,9 +111,16 @@ class ConstantExpressionEvaluator:
 
     def eval_binop(self, expr):
         """Evaluate binary operator."""
+        op = expr.op
+        if op in ["&&", "||"]:
+            # Short circuit logic, the result is 0 or 1:
+            lhs = self.eval_expr(expr.a)
+            if bool(lhs) == (op == "||"):
+                return int(op == "||")
+            return int(bool(self.eval_expr(expr.b)))
+
         lhs = self.eval_expr(expr.a)
         rhs = self.eval_expr(expr.b)
-        op = expr.op
 
         op_map = {
             "+": lambda x, y: x + y,
